@@ -20,7 +20,7 @@ RULE = ("history cases: random request histories (anonymize / undo / repeat an e
         "distinct_nontrivial = distinct (config, history) pairs containing both directions on overlapping "
         "prefixes + distinct file sets.")
 ASSUMPTIONS = ["reference = fresh instance of the same class (decides history independence, not the digest used)"]
-DECIDING = ["requests_vs_fresh", "memo_invariant_checks"]
+DECIDING = ["requests_vs_fresh"]
 
 
 def cases(ctx):
@@ -103,13 +103,17 @@ def _hist(ctx, case):
                           % (i, op, a, got, want))
             return
         prob, snap = memo_invariants(S, B, snap, rng)
-        ctx.count("memo_invariant_checks")
+        if prob == "UNREACHED":
+            ctx.mark_unreached("memo invariants (no reachable memo)")
+            prob = None
+        else:
+            ctx.count("memo_invariant_checks")
         if prob:
             ctx.violation(dict(case, hist=concrete), "memo-invariant", "after request %d %s(%s): %s" % (i, op, a, prob))
             return
         both.add(op)
     ctx.count("histories_v%d" % cfg["fam"])
-    ctx.count("memo_entries_seen", len(S.cache))
+    ctx.count("memo_entries_seen", len(getattr(S, "cache", ())))
     if len(both) == 2:
         ctx.distinct(("hist", cfg["fam"], cfg["salt"], cfg["B"], cfg.get("salter"), str(cfg.get("pp")), str(cfg.get("pa")), case["hseed"]))
     ctx.sample({"kind": "hist", "cfg": cfg, "history_head": concrete[:6], "results_head": results[:6], "len": len(hist)})
